@@ -359,11 +359,11 @@ func Run(sc Scenario) *Trace {
 	}
 	r.srv = srv
 	srv.ResetDiscardsTx = sc.Config.ResetDiscardsTx
-<<<<<<< HEAD
-	srv.SetAutoIncStep(int64(sc.Config.AutoIncrementIncrement))
-=======
-	srv.SetAutoIncStep(int64(sc.AutoIncStep))
->>>>>>> atroll
+	if sc.Config.AutoIncrementIncrement > 0 {
+		srv.SetAutoIncStep(int64(sc.Config.AutoIncrementIncrement))
+	} else {
+		srv.SetAutoIncStep(int64(sc.AutoIncStep))
+	}
 	if sc.Version != "" {
 		srv.SetVersion(sc.Version)
 	}
